@@ -364,7 +364,7 @@ def run_val_in(spec, res, d, h):
     f, c, e = build(spec)
     if spec.get('disk'):
         # the coordinate file saved and opened again from disk
-        g = harness.to_disk(f, d, h)
+        g = harness.to_disk(f, d, h, res=res)
         if g is not None:
             f = g
             res.facet('source:disk')
